@@ -16,6 +16,8 @@
 (*   shift    all timestamps shifted by a constant                         *)
 (*   scale    all values (setpoint, command) scaled by a power of two      *)
 (*   variant  the Quantity variant of a filter                             *)
+(*   composite  (PID) the controller assembled from the crate's            *)
+(*            difference, integral, derivative, product and sum streams    *)
 (*   get2     a second call of get()                                       *)
 (* Values are logged as ordered integer keys of their f32 bits (adjacent   *)
 (* floats differ by 1), times in per-history ticks.                        *)
@@ -103,6 +105,7 @@ Event ==
      /\ ((ShapeIgnoresAbsent(kind) /\ r.ev.c # "none") => SameOut(r.skip, r.out))                \* deleting absent samples changes nothing
      /\ SameOut(r.shift, r.out)                                                                  \* unchanged by a constant shift of timestamps (shifted back by the recorder)
      /\ SameOut(r.scale, r.out)                                                                  \* scales exactly with a power of two (rescaled back by the recorder)
+     /\ (kind = "PID" /\ r.ev.c = "some" => SameOut(r.composite, r.out))                         \* the controller assembled from primitive streams agrees after every present sample
      /\ (kind \in {"MA", "EWMA"} => SameOut(r.variant, r.out))                                   \* the Quantity variant gives the same numbers
      /\ (kind \in {"MA", "MAQ"} /\ r.ev.c = "some" =>
             /\ Len(q2) >= 1
